@@ -63,6 +63,42 @@ let run_rng fl toks =
     String.concat " ; " (head :: List.map (fun (f, t) -> show_range (range fl !b (zu64 f) (zu64 t))) (pairs qs))
   | _ -> "badline"
 
+let run_conc fl toks =
+  match toks with
+  | _cls :: cap :: ops ->
+    let c = int_of_string cap in
+    let zc = if c <= 0 then Z0 else Zpos (pos_of_int c) in
+    let parse t = match String.split_on_char ':' t with
+      | ["H"; i; sid] -> [SStart (n_of_decimal i, dummy_session (n_of_decimal sid) (n_of_int 1), false)]
+      | ["F"; i] -> [SFinish (n_of_decimal i)]
+      | ["E"; sid] -> [SStart (N0, dummy_session (n_of_decimal sid) (n_of_int 1), false); SFinish N0]
+      | _ -> failwith ("bad op " ^ t) in
+    let st = ss_run fl (n_of_int 1) zc (List.concat (List.map parse ops)) in
+    let seqs_of l = List.map (function None -> None | Some q -> Some q.q_seq) l in
+    let ring = seqs_of (ring_list st.ss_ring) in
+    let retained = List.filter_map (fun x -> x) ring in
+    let stream = List.map (fun q -> q.q_seq) st.ss_chan in
+    let show l = if l = [] then "-" else String.concat "," (List.map decimal_of_n l) in
+    let rec consec = function a :: (b :: _ as r) -> N.eqb b (N.add a (Npos XH)) && consec r | _ -> true in
+    let n = List.length stream in
+    let exact = ref true in
+    let answers = ref [] in
+    for from = 0 to n + 1 do
+      for to_ = 0 to n + 1 do
+        let zf = if from = 0 then Z0 else Zpos (pos_of_int from) and zt = if to_ = 0 then Z0 else Zpos (pos_of_int to_) in
+        let got = show_range (range fl st.ss_ring zf zt) in
+        answers := got :: !answers;
+        let want = List.sort compare (List.filter (fun s -> from <= s && s <= to_) (List.map int_of_n retained)) in
+        let ws = if want = [] then "nil" else String.concat "," (List.map string_of_int want) in
+        if got <> ws then exact := false
+      done
+    done;
+    let okbad b = if b then "ok" else "bad" in
+    Printf.sprintf "seq=%s ring=%s stream=%s answers=%s ringconsec=%s streamorder=%s rangeexact=%s" (decimal_of_n st.ss_seq)
+      (if ring = [] then "-" else String.concat "," (List.map (function None -> "x" | Some s -> decimal_of_n s) ring))
+      (show stream) (String.concat "|" (List.rev !answers)) (okbad (consec retained)) (okbad (consec stream)) (okbad !exact)
+  | _ -> "badline"
+
 let opt_n t = if t = "-" then None else Some (n_of_decimal t)
 
 let parse_session tok =
@@ -164,4 +200,5 @@ let () =
       | [] -> ()
       | "rng" :: t -> print_endline (try run_rng fl t with e -> "modelerror " ^ Printexc.to_string e)
       | "hist" :: t -> print_endline (try run_hist fl t with e -> "modelerror " ^ Printexc.to_string e)
+      | "conc" :: t -> print_endline (try run_conc fl t with e -> "modelerror " ^ Printexc.to_string e)
       | _ -> print_endline "badline") lines
